@@ -68,6 +68,13 @@ def cases(tier, seed):
         pixels = [[rng.randint(0, 50) * 7 + i, rng.randrange(n), rng.randrange(n), rng.randint(1, 9)] for i in range(k)]
         if h % 5 == 0:
             pixels.sort(key=lambda p: -p[3])                        # e.g. ranked by count
+        rindex = None
+        if h % 4 == 1 and k:
+            # labelled by a RangeIndex that is not 0..k-1: a positional slice / a reversed / a strided view of a numbered frame
+            step = rng.choice([1, 1, 2, 3, -1, -2])
+            start = rng.randint(0, 12) if step > 0 else rng.randint(0, 5) + (-step) * (k - 1)
+            rindex = [start, start + step * k, step]
+            pixels = [[start + step * i] + p[1:] for i, p in enumerate(pixels)]
         a, b = 0, n
         if form == "part":
             need = [p[1] for p in pixels] + [p[2] for p in pixels]
@@ -78,7 +85,7 @@ def cases(tier, seed):
                 b = a + 1
         yield "sel.annotate", {"table": table, "mode": mode, "px": px, "w": w, "pixels": pixels, "bins_form": form, "part": [a, b],
                                "binattrs": binattrs, "encoding": "enum" if h % 3 else "int",
-                               "id_dtype": ["int64", "int32", "uint32"][h % 3]}
+                               "id_dtype": ["int64", "int32", "uint32"][h % 3], **({"rindex": rindex} if rindex else {})}
 
 
 def run(tier, seed, only_case=None):
